@@ -24,7 +24,7 @@
   decisions go through Coq (wrap_bad); the property itself (least squares, minimum norm, SPD solution,
   failure clause) is checked on the wrappers' return values.
   This validates hypotheses about torch on samples; it proves nothing about LAPACK.
-* Cholesky failure clause (repaired in /repo 50a1217, `fixed:` in known_findings.txt): the former witnesses
+* Cholesky failure clause (repaired in /repo 3f16d24, `fixed:` in known_findings.txt): the former witnesses
   (A=[[1,2],[2,1]], [[1,1],[1,1]], [[-1]]) are kept as directed cases and every generated indefinite /
   singular matrix (alone or as one member of a batch) must raise; a return is a VIOLATION."""
 import itertools, math
@@ -754,7 +754,7 @@ def check_direct(ctx, torch, solver, files, tables):
                 nonpd.append((cdesc, x))
     # the failure clause, on the implementation: a non-PD matrix must raise
     witness = dict(kind='cholesky', fam='indefinite', n=2, batch=(), k=1, upper=False, A=[[1.0, 2.0], [2.0, 1.0]], b=[[1.0], [1.0]])
-    # directed: the witnesses of C10_cholesky_old_raises_refuted(_witness) (the defect repaired in 50a1217)
+    # directed: the witnesses of C10_cholesky_old_raises_refuted(_witness) (the defect repaired in 3f16d24)
     for cdesc in [witness, dict(witness, upper=True), dict(witness, fam='singular-psd', A=[[1.0, 1.0], [1.0, 1.0]]),
                   dict(witness, n=1, A=[[-1.0]], b=[[1.0]])] + [c for c, _ in nonpd]:
         why = replay(ctx, cdesc)
